@@ -825,7 +825,7 @@ def draw_op(rng: random.Random, eng: C10Engine) -> List[Any]:
             t = rng.choice(tables)
             f = rng.choice(["name", "name", "schema", "alias", "header_color", "comment"])
             v = {"name": rng.choice(NAME_POOL + ["renamed"]), "schema": rng.choice(SCHEMAS + ["s9"]),
-                 "alias": rng.choice([None, "al9", "zz"]), "header_color": rng.choice(COLORS),
+                 "alias": rng.choice([None, "al9", "zz", ""]), "header_color": rng.choice(COLORS),
                  "comment": rng.choice([None, "new c", "a\nb", ""])}[f]
             return ["set", t, f, v]
         cols = [c for t in tables for c in m[t]["cols"]]
